@@ -307,6 +307,7 @@ func (f *g2lFn) callFn(b *binds, callee *g2lFn, args []string, at ast.Node) stri
 		}
 		r := f.fresh("io")
 		b.add(fmt.Sprintf("let (%s, %s) := %s", r, target, t))
+		b.noteRebound(target)
 		return r
 	}
 	if callee == f {
@@ -424,6 +425,9 @@ func (f *g2lFn) fallsStmt(s ast.Stmt) bool {
 	case *ast.ExprStmt:
 		if c, ok := s.X.(*ast.CallExpr); ok {
 			if id, ok := c.Fun.(*ast.Ident); ok && id.Name == "panic" {
+				return false
+			}
+			if f.isPanicCall(c) {
 				return false
 			}
 		}
@@ -570,8 +574,28 @@ func (f *g2lFn) stmts(list []ast.Stmt, k kont) []string {
 			}
 		}
 		if c, ok := s.X.(*ast.CallExpr); ok {
+			if f.isPanicCall(c) {
+				f.pure = false
+				return []string{"throw Err.panic"}
+			}
 			if l, ok := f.exprStmtCall(c); ok {
 				return append(l, rest()...)
+			}
+			// a call to a translated function evaluated for its effect on an in-out receiver / parameter
+			if _, name, _ := f.calleeName(c); name != "" {
+				var b binds
+				func() {
+					defer func() {
+						if r := recover(); r != nil {
+							if _, isFail := r.(fail); !isFail {
+								panic(r)
+							}
+							panic(r)
+						}
+					}()
+					f.call(&b, c)
+				}()
+				return append(b.lines, rest()...)
 			}
 		}
 		f.bad(s, "expression statement %s", show(s.X))
@@ -707,6 +731,9 @@ func (f *g2lFn) assignedOuter(nodes []ast.Node, before token.Pos) []*types.Var {
 						// a call to an in-out method assigns to its receiver
 						if s, ok := f.p.info.Selections[sel]; ok && s.Kind() == types.MethodVal {
 							rt := s.Recv()
+							if pt, ok := rt.(*types.Pointer); ok {
+								rt = pt.Elem()
+							}
 							if n2, ok := rt.(*types.Named); ok {
 								if _, ok := f.u.inout[n2.Obj().Name()+"."+sel.Sel.Name]; ok {
 									add(id)
@@ -884,11 +911,30 @@ func (f *g2lFn) assignOne(lines *[]string, lhs ast.Expr, term string, lt types.T
 		}
 		*lines = append(*lines, fmt.Sprintf("let %s := %s", f.name(l), term))
 	case *ast.SelectorExpr:
-		base, ok := l.X.(*ast.Ident)
-		if !ok {
-			f.bad(lhs, "nested field assignment")
+		// x.a.b.c = v  ==>  let x := { x with a := { x.a with b := { x.a.b with c := v } } }
+		chain := []string{leanIdent(l.Sel.Name)}
+		cur := l.X
+		for {
+			if se, ok := cur.(*ast.SelectorExpr); ok {
+				chain = append([]string{leanIdent(se.Sel.Name)}, chain...)
+				cur = se.X
+				continue
+			}
+			break
 		}
-		*lines = append(*lines, fmt.Sprintf("let %s := { %s with %s := %s }", f.name(base), f.name(base), leanIdent(l.Sel.Name), term))
+		base, ok := cur.(*ast.Ident)
+		if !ok {
+			f.bad(lhs, "field assignment on %s", show(cur))
+		}
+		val := term
+		for i := len(chain) - 1; i >= 0; i-- {
+			path := "(" + f.name(base) + ")"
+			for _, c := range chain[:i] {
+				path = "(" + path + "." + c + ")"
+			}
+			val = fmt.Sprintf("{ %s with %s := %s }", path, chain[i], val)
+		}
+		*lines = append(*lines, fmt.Sprintf("let %s := %s", f.name(base), val))
 	case *ast.IndexExpr:
 		base, ok := l.X.(*ast.Ident)
 		if !ok {
@@ -1180,4 +1226,22 @@ func (f *g2lFn) absStringer(t types.Type) string {
 	}
 	f.useAbs(p)
 	return p
+}
+
+// isPanicCall: a method configured as never returning (it panics), e.g. (*input).Error
+func (f *g2lFn) isPanicCall(c *ast.CallExpr) bool {
+	sel, ok := c.Fun.(*ast.SelectorExpr)
+	if !ok {
+		return false
+	}
+	s, ok := f.p.info.Selections[sel]
+	if !ok || s.Kind() != types.MethodVal {
+		return false
+	}
+	rt := s.Recv()
+	if p, ok := rt.(*types.Pointer); ok {
+		rt = p.Elem()
+	}
+	n, ok := rt.(*types.Named)
+	return ok && f.u.panicCalls[n.Obj().Name()+"."+sel.Sel.Name]
 }
